@@ -599,7 +599,7 @@ func (c *Ctx) retentionFresh(pkg, typ string, exempt map[string]string) {
 					c.R.Ok(ruleG6, key, c.P.InstrPos(st), "exempt: "+why)
 					continue
 				}
-				if ok, why := freshValue(st.Val, 0); ok {
+				if ok, why := c.freshAtCallers(st.Val, 2); ok {
 					c.R.Ok(ruleG6, key, c.P.InstrPos(st), "fresh: "+why)
 				} else {
 					c.R.Bad(ruleG6, key, c.P.InstrPos(st), fmt.Sprintf("%s.%s retains %s, which is not allocated here: the stored request/ack aliases storage that later traffic rewrites", typ, fld.Name(), why))
@@ -608,6 +608,43 @@ func (c *Ctx) retentionFresh(pkg, typ string, exempt map[string]string) {
 		}
 	}
 	c.R.Count("retention stores into "+pkg+"."+typ, n)
+}
+
+// freshAtCallers: the value is allocated on the path, or it is a parameter of an unexported helper and the
+// argument is allocated on the path at every call site of that helper (a store moved into a helper).
+func (c *Ctx) freshAtCallers(v ssa.Value, depth int) (bool, string) {
+	ok, why := freshValue(v, 0)
+	if ok || depth == 0 {
+		return ok, why
+	}
+	p, isP := ir.SeeThrough(v).(*ssa.Parameter)
+	if !isP || p.Parent() == nil {
+		return false, why
+	}
+	fn := p.Parent()
+	if fn.Object() != nil && fn.Object().Exported() {
+		return false, why
+	}
+	idx := -1
+	for i, q := range fn.Params {
+		if q == p {
+			idx = i
+		}
+	}
+	callers := c.P.Callers(fn)
+	if idx < 0 || len(callers) == 0 {
+		return false, why
+	}
+	for _, call := range callers {
+		cc := call.Common()
+		if cc.IsInvoke() || cc.StaticCallee() != fn || idx >= len(cc.Args) {
+			return false, why
+		}
+		if ok2, why2 := c.freshAtCallers(cc.Args[idx], depth-1); !ok2 {
+			return false, "argument of " + fn.Name() + " at " + c.P.InstrPos(call) + ": " + why2
+		}
+	}
+	return true, "allocated at every call site of the helper " + fn.Name()
 }
 
 func structOfType(t types.Type) (*types.Struct, *types.Named) {
